@@ -24,6 +24,7 @@ def run(ctx, R, tier):
     from .c07 import payload_verbatim
     payload_verbatim(F, R, rule='B.C19.payload', fn_filter=lambda q: q.startswith('clock::'), floor=3)
     pair_published(F, R)
+    no_chunk_end_blend(F, R)
     # 'clock-time arithmetic keeps the fraction in [0, 1)': so does the fraction a handle reads (published at full width)
     from .c05 import published_width
     published_width(F, R, rule='B.C19.published', fn_filter=lambda q: q.startswith('clock::'), floor=4)
@@ -297,6 +298,20 @@ def cmp_(F, R):
             why = 'a path does not compare the clocks'
     R.check(ok and seen == {'different-clock', 'equal-ticks', 'ticks'}, 'B.C19.cmp', 'partial_cmp', why or 'branches %s' % sorted(seen),
             detail={'branches': sorted(seen)}, where=b.file)
+
+
+def no_chunk_end_blend(F, R, rule='B.C19.db'):
+    """'Agrees with 10^(dB/20)', 'panning keeps the total power': inside a chunk a volume or panning is converted per frame from
+    the interpolated *parameter* value (`interpolated_value(t).as_amplitude()`, `frame.panned(interpolated_value(t))`).  Nothing
+    in the mixing code or the effects takes the two chunk-end values (`previous_value()`, `value()`), converts them and blends
+    the results: a straight line between two amplitudes / gain pairs is not the amplitude / gain pair of the value in between.
+    (The listener's pose is blended from its chunk ends by design - positions are linear.)"""
+    pv = sorted(set(b.path for b in F.bodies if b.krate == 'kira' and not b.path.startswith(('parameter::', 'info::'))
+                    for _, t in b.calls() if (callee_path(t) or '') == 'parameter::Parameter::<T>::previous_value'))
+    R.check(not pv, rule, 'per-frame-conversion', '%s reads Parameter::previous_value(): it blends converted chunk-end values itself instead of converting '
+            'the interpolated value of each frame' % pv, detail='previous_value() is read by Parameter and the listener info only')
+    users = [b.path for b in F.bodies if b.krate == 'kira' for _, t in b.calls() if (callee_path(t) or '') == 'parameter::Parameter::<T>::previous_value']
+    R.floor(rule + '.prev-users', len(users), 2)
 
 
 def pair_published(F, R, rule='B.C19.published'):
